@@ -10,7 +10,9 @@ pub mod c10;
 pub mod c11;
 pub mod c12;
 pub mod c13;
+pub mod c16;
 pub mod c18;
+pub mod c19;
 pub mod c20;
 
 pub fn c13_seeds() -> Vec<&'static str> {
